@@ -2,10 +2,32 @@
 META = dict(
     harness=['C17'],
     fuzz=[dict(name='fz_ref', quick_runs=150000, max_len=192, quick_procs=2, thorough_procs=8)],
-    rule='placeholder',
-    technique='placeholder',
-    level_text='placeholder',
-    level_note='placeholder',
+    engines='rapidcheck + bounded exhaustive enumeration + libFuzzer',
+    rule='Generated: (i) exhaustively every text of <=5 symbols (thorough: <=6) over {"@{","@","{","}","|","X1","nomn","-1","a", a 3-byte code point} '
+         'and 31 fixed texts (the witnesses of the four repaired findings, the strings of the upstream unit tests); (ii) rapidcheck texts of 1-8 segments: plain pieces '
+         'of 1-4-byte code points with stray @ { } | , well-formed entity references (any of the 35 grammemes, blanks, unknown/duplicate tags, legacy 3- and 4-field forms), '
+         'collaboration references (offsets -3..3, up to +-300, int16 limits, leading zeros, texts with commas / balanced braces / empty), 41 malformed forms (empty fields, '
+         'one or five fields, unclosed, nested, doubled braces, "@ {", "@@@{"), candidates without a documented reading and the repaired defect classes; term contexts over 7 names with '
+         'missing entities, empty terms, manual forms (also empty) and a deterministic text processor whose inflection drops, appends and wraps 1-4-byte code points; renaming maps; '
+         'histories of 1-10 Insert / EraseIn(+-expand) at positions anchored on reference borders +-2; (iii) libFuzzer: byte strings <=192 bytes (sanitised to well-formed UTF-8) with a '
+         'reference-grammar dictionary. Non-trivial: extract: >=2 candidates incl. a well-formed reference with multi-byte text before a reference; resolve: >=2 references, multi-byte '
+         'text before one and a resolution whose code-point length differs from the reference; managed: the same and the renaming changes a reference; history: an operation position '
+         'touches a reference; enumeration / fuzzing: the text contains a "@{" candidate. Distinct = hash of the rendered case (fuzz: of the sanitised text).',
+    technique='model-based rapidcheck properties (texts, term contexts, edit histories) + exhaustive enumeration of short token texts + coverage-guided fuzzing, all against the independent '
+              'reference model M6 (candidate scanner, well-formedness rules, canonical spelling, resolution rules, shadow text)',
+    level_text='Model-based exploration: Reference::ExtractAll / Parse / ToString, RefsManager::Resolve / get / OutputRefs / Insert / EraseIn and ManagedText Str / Raw / Referals / TranslateRaw / '
+               'UpdateFrom / TranslateRefs are compared with an independent model on every generated text, context and history; all token texts up to 5 (6) symbols are enumerated, longer texts '
+               'and byte strings are sampled and fuzzed under ASan+UBSan with assertions on.',
+    level_note='Trusted base: harness/model/reftext.hpp (M6) and the adapters in harness/model/reftext_glue.hpp, written from the header comments and the upstream tests. Left unconstrained and counted '
+               '(counters unconstrained:*): candidates without a documented reading - entity names that are not identifiers, legacy forms with an empty field / a comma list inside a field / a last '
+               'field like "1per" or "0a", collaboration offsets outside int16 (must be rejected or kept exactly, never wrapped) - for which only absence of faults and the structural invariants are '
+               'demanded; occurrences nested inside a malformed or unclosed candidate (not demanded, but anything reported there must be well-formed); the order of the tags in a canonical spelling '
+               '(upstream accepts both orders); acceptance of EraseIn for an empty range or for a range covering a reference that already touches both neighbours; OutputRefs sub-ranges that cut a '
+               'reference; FirstIn and UpdatePositions are only executed. Existing collaboration references are not expected to be re-resolved after Insert / EraseIn. The fuzz target applies the '
+               'ManagedText oracles to every second text (chosen by a hash of the text).',
     design_ref='DESIGN.md section 4 (M6) and section 5, C17',
-    assumptions=['single-threaded use'],
+    assumptions=['single-threaded use (TextEnvironment is process-wide state; every case re-installs the processor and clears skipResolving)',
+                 'texts are well-formed UTF-8 (documented requirement of the UTF-8 utilities); fuzz bytes are sanitised first',
+                 'Insert positions and EraseIn ranges lie inside the text; EntityTermContext::At returns stable pointers during a call',
+                 'entity names given to TranslateRaw are identifiers'],
 )
